@@ -39,7 +39,7 @@ AllAmounts(u) ==
 (* The large enumerations take a dummy parameter so that TLC does not pre-evaluate them as constants
    (it would do so once per worker at start-up). *)
 (* ---- families ------------------------------------------------------------------------------- *)
-Case(fam, trig, es) == [fam |-> fam, trig |-> trig, es |-> es, eol |-> "LF", final |-> TRUE, tight |-> FALSE]
+Case(fam, trig, es) == [fam |-> fam, trig |-> trig, es |-> es, eol |-> "LF", final |-> TRUE, tight |-> FALSE, trail |-> FALSE]
 
 FamAmounts(u) ==
     { Case("amounts", "", << [BaseTx EXCEPT !.posts[1].amt = <<a>>] >>) : a \in AllAmounts(0) }
@@ -119,6 +119,7 @@ Constructs == <<
   [dir |-> "include", path |-> 1],
   [dir |-> "include", path |-> 3],
   [dir |-> "include", path |-> 4],
+  [dir |-> "include", path |-> 1, cmt |-> Cmt(1, <<>>)],
   [dir |-> "P", date |-> D(2024, 1, 15), comm |-> 6, a |-> [Amt(18950, 2, 1) EXCEPT !.side = "L", !.sp = FALSE]],
   [dir |-> "P", date |-> D(2024, 1, 15), comm |-> 2, a |-> Amt(108, 2, 4)],
   [dir |-> "Y", y |-> 2024, word |-> "Y"],
@@ -138,7 +139,7 @@ FamPairs(u) ==
 RandJournal(x) == RandJournalN(x, MaxEntries)
 
 (* a third of the random journals are laid out tightly: no blank line between entries *)
-RandCase(x) == [fam |-> "random", trig |-> "", es |-> RandJournal(x), eol |-> Pick({"LF", "LF", "CRLF"}), final |-> ~Coin(4, x), tight |-> Coin(3, x)]
+RandCase(x) == [fam |-> "random", trig |-> "", es |-> RandJournal(x), eol |-> Pick({"LF", "LF", "CRLF"}), final |-> ~Coin(4, x), tight |-> Coin(3, x), trail |-> Coin(3, x + 5)]
 
 (* ---- the one-step behaviour that TLC enumerates / simulates --------------------------------- *)
 VARIABLES cas, stg
@@ -156,7 +157,7 @@ Next == /\ Family = "random" /\ stg = 0
         /\ stg' = 1
         /\ cas' = RandCase(stg)
 
-Out(k) == LET r == RenderedT(k.es, k.tight) IN
+Out(k) == LET r == IF k.trail THEN Trailing(RenderedT(k.es, k.tight)) ELSE RenderedT(k.es, k.tight) IN
           [fam |-> k.fam, trig |-> k.trig, eol |-> k.eol, final |-> k.final, tight |-> k.tight, lines |-> r.lines, firsts |-> r.firsts, abs |-> r.abs,
            lex |-> IF WithLex THEN r.lex ELSE <<>>, u16 |-> IF WithLex THEN r.u16 ELSE <<>>, runes |-> IF WithLex THEN r.runes ELSE <<>>,
            es |-> IF WithLex THEN k.es ELSE <<>>]
